@@ -1,8 +1,9 @@
 (* C06 - cleanup stacks of the Cb interpreter: skeleton language, Mech model, Spec.
 
-   Mech mirrors, function by function, what the C++ does (HEAD with the three `fix:` commits
-   52ea7be [#43], 605aa41 [#11], c388113 [#44]; the machine of the code BEFORE those commits is kept in
-   Pinned.v for the record) with its two parallel cleanup
+   Mech mirrors, function by function, what the C++ does (HEAD with the `fix:` commits
+   52ea7be [#43], 605aa41 [#11], c388113 [#44] - the machine of the code BEFORE those three is kept in
+   Pinned.v for the record - and the two later repairs of register_destructor_call [a registration resets
+   destructor_called] and of the cleanup levels opened while a destructor runs) with its two parallel cleanup
    stacks (src/backend/interpreter/core/interpreter.h:756 defer_stacks_, :760 destructor_stacks_) AND the
    name-keyed part of the machinery: destructor_stacks_ holds (variable NAME, struct type) pairs, the
    object itself is found again at cleanup time by VariableManager::find_variable(name) through
@@ -182,15 +183,18 @@ Definition push_scope (st : state) : state :=
 Definition push_destructor_scope (st : state) : state :=
   mk ([] :: dfs st) ([] :: dts st) (vars st) (tr st).
 
-(* cleanup.cpp: pop_scope while is_calling_destructor_ is set: the destructor level is popped without
-   running anything, then pop_defer_scope, then the variable scope *)
+(* cleanup.cpp: pop_scope of the scope call_destructor pushed itself.  It is an ordinary pop_scope (since
+   the repair of finding C06-destructor-context-no-cleanup nothing distinguishes a scope that is left while
+   a destructor runs); the tracing destructors of the skeleton language declare no object and register no
+   defer, so its destructor level is empty: the level is popped, pop_defer_scope, then the variable scope.
+   (Destructor bodies that own objects / defers / blocks: fixed text programs of the harness.) *)
 Definition pop_scope_in_destructor (st : state) : state :=
   let st1 := pop_defer_scope (mk (dfs st) (tl (dts st)) (vars st) (tr st)) in
   mk (dfs st1) (dts st1) (tl (vars st1)) (tr st1).
 
 (* interpreter.cpp: call_destructor(var_name, struct_type_name) -
      var = find_variable(var_name); if (var && var->destructor_called) return;       [guard]
-     is_calling_destructor_ = true; push_scope; self = copy of *find_variable(var_name);
+     push_scope; self = copy of *find_variable(var_name);
      body of struct_type_name's destructor (println("<t>dtor", self.id)); mark the variable
      destructor_called; pop_scope.
    The type of the ENTRY selects the destructor body, the SLOT supplies self.id.
@@ -234,7 +238,8 @@ Definition pre_return_cleanup (st : state) : state :=
   | _ => st1
   end.
 
-(* interpreter.cpp: register_destructor_call - nothing when the stack is empty, else push_back on back() *)
+(* interpreter.cpp: register_destructor_call - nothing when the stack is empty, else push_back on back()
+   (the reset of destructor_called it performs first is part of obj_slots, see there) *)
 Definition register_destructor (e : name * ty) (st : state) : state :=
   match dts st with
   | [] => st
@@ -247,13 +252,16 @@ Definition register_obj (x : nat) (t : ty) (st : state) : state :=
 
 (* declaration.cpp:2449 insert_or_assign(name, fresh Variable) into current_scope().variables: a fresh
    slot (destructor_called = false) that REPLACES whatever this activation bound to the name before - blocks
-   open no variable scope.  For W the member variable "x.r" is (re)written too; its destructor_called
-   flag survives a re-declaration in the same activation (observed on the binary, e.g. `{ W a(1); }
-   { W a(2); }`: the second a.r is never destroyed - finding C06-redeclared-member-flag-stale). *)
+   open no variable scope.  For W the member variable "x.r" of the same scope is (re)written too; the
+   Variable object of an earlier "x.r" is re-used, but register_destructor_call - which runs right after,
+   see declare_obj - resets destructor_called on the variable find_variable(name) returns for every entry
+   it pushes (repair of finding C06-redeclared-member-flag-stale; before it the flag of "x.r" survived a
+   re-declaration in the same activation and the second member object was never destroyed).  Both
+   variables are in the CURRENT scope at that moment, so find_variable returns exactly the slots written
+   here: the model folds the reset into the binding. *)
 Definition obj_slots (F : frame) (x : nat) (t : ty) (id : nat) : frame :=
   match t with
-  | TW => (NVar x, (id, false))
-          :: (NMem x, (id + 50, match lookup F (NMem x) with Some (_, b) => b | None => false end)) :: F
+  | TW => (NVar x, (id, false)) :: (NMem x, (id + 50, false)) :: F
   | _ => (NVar x, (id, false)) :: F
   end.
 
@@ -476,7 +484,8 @@ Definition srun (fuel : nat) (p : prog) (n0 : nat) : option (bool * list event) 
    name-keyed machinery is transparent (static, decidable): inside one function body no object
    declaration re-uses a variable name that an earlier declaration of the same block or of an enclosing
    block uses (sibling blocks, successive loop iterations, other functions, other activations of the
-   same function may re-use names freely), and W objects (member flag, see obj_slots) are not used.
+   same function may re-use names freely).  A W declaration creates two names (the variable and the
+   member path of its R member), both must be new.
    L: names declared so far in the current block, N0: names declared in the enclosing blocks. *)
 Fixpoint mem_name (x : name) (l : list name) : bool :=
   match l with
@@ -492,7 +501,7 @@ Definition decl_s (s : stmt) : list name :=
 
 Fixpoint wf_s (N : list name) (s : stmt) : bool :=
   match s with
-  | SObj x t _ => negb (mem_name (NVar x) N) && negb (ty_eqb t TW)
+  | SObj x t _ => forallb (fun y => negb (mem_name y N)) (map fst (obj_entries x t))
   | SBlock b => wf_b [] N b
   | SIf _ t e => wf_b [] N t && wf_b [] N e
   | SLoop _ b => wf_b [] N b
